@@ -1,6 +1,7 @@
 \* export (quick): server classes - representative lists x instants x every class x every other key, one repetition
 CONSTANTS
   ShardLists <- MCFewLists
+  Deployments <- MCDepQuick
   Instants = {0, 1, 2, 3, 4}
   Scenes = {"submit"}
   ChainKinds = {"x509", "precert", "precertPreIssuer"}
